@@ -1,6 +1,7 @@
 package wm
 
 import (
+	"fmt"
 	"go/token"
 	"go/types"
 
@@ -244,3 +245,96 @@ func IsGlobalLoad(v ssa.Value, pkgpath, name string) bool {
 
 // IsErrorType reports whether t is the predeclared error interface.
 func IsErrorType(t types.Type) bool { return t.String() == "error" }
+
+// ErrSource is result k of a call: an error that a function may hand on.
+type ErrSource struct {
+	Call ssa.CallInstruction
+	K    int
+}
+
+// ErrorsOnlyFrom decides "fn fails only for the listed reasons": every non-nil
+// error fn returns is (a wrap of) one of the source errors, or — for an error
+// made in fn itself — is returned only behind one of the given failure edges.
+// A new exit that refuses the operation for another reason (a fast path, a
+// guard on an option, a context check) is reported.
+func ErrorsOnlyFrom(c *Check, id, rule string, fn *ssa.Function, srcs []ErrSource, edges []Edge, why string) {
+	ErrorsOnlyFromKinds(c, id, rule, fn, func(cl ssa.CallInstruction) (int, bool) {
+		for _, s := range srcs {
+			if s.Call == cl {
+				return s.K, true
+			}
+		}
+		return 0, false
+	}, edges, why)
+}
+
+// ErrorsOnlyFromKinds is ErrorsOnlyFrom with the sources given by kind: classify
+// says for a call whether its result k is an admissible error. The error result
+// of a private in-package helper is admissible if the helper, judged by the same
+// classifier, fails only for admissible reasons (two levels).
+func ErrorsOnlyFromKinds(c *Check, id, rule string, fn *ssa.Function, classify func(ssa.CallInstruction) (int, bool), edges []Edge, why string) {
+	var admissible func(f *ssa.Function, v ssa.Value, depth int) bool
+	helperOK := func(h *ssa.Function, depth int) bool {
+		if depth > 2 || h == nil || len(h.Blocks) == 0 {
+			return false
+		}
+		for _, r := range Returns(h) {
+			if len(r.Results) == 0 {
+				return false
+			}
+			for _, v := range Origins(r.Results[len(r.Results)-1]) {
+				if !IsNilConst(v) && !admissible(h, v, depth+1) {
+					return false
+				}
+			}
+		}
+		return true
+	}
+	admissible = func(f *ssa.Function, v ssa.Value, depth int) bool {
+		return Wraps(v, func(x ssa.Value) bool {
+			var call ssa.CallInstruction
+			k := 0
+			switch y := x.(type) {
+			case *ssa.Call:
+				call = y
+			case *ssa.Extract:
+				if cc, ok := y.Tuple.(*ssa.Call); ok {
+					call, k = cc, y.Index
+				}
+			}
+			if call == nil {
+				return false
+			}
+			if ck, ok := classify(call); ok && ck == k {
+				return true
+			}
+			if cal := CalleeFn(call.Common()); cal != nil && cal.Pkg == f.Pkg && cal.Object() != nil && !cal.Object().Exported() {
+				n := cal.Signature.Results().Len()
+				return n > 0 && k == n-1 && helperOK(cal, depth)
+			}
+			return false
+		})
+	}
+	for i, r := range Returns(fn) {
+		if len(r.Results) == 0 {
+			continue
+		}
+		res := r.Results[len(r.Results)-1]
+		if !IsErrorType(res.Type()) {
+			continue
+		}
+		ok := true
+		var wit []string
+		for _, v := range Origins(res) {
+			if IsNilConst(v) || admissible(fn, v, 0) {
+				continue
+			}
+			if len(edges) > 0 && (GuardedBy(fn, r, edges) || nilOnlyOnEdges(r, v, edges)) {
+				continue
+			}
+			ok = false
+			wit = append(wit, "returns "+v.String()+" at "+c.P.Pos(r.Pos())+", which is neither one of the listed errors nor behind one of the listed failure tests")
+		}
+		c.Report(ok, id, rule, fn, r.Pos(), fmt.Sprintf("%s return#%d", FnName(fn), i), why, wit...)
+	}
+}
